@@ -82,6 +82,9 @@
 #        apart (no capture): receiver and arguments are evaluated left to right before the body, `&mut` parameters are exclusive
 #        borrows of the caller's variables (no aliasing in safe Rust), shared borrows cannot be mutated during the call, so copying
 #        them is unobservable.  Nesting depth at most 3 (recursion is refused).  A helper that is in the table keeps its table entry.
+#   (C7) negation normal form of boolean expressions: `!(x && y)` = `!x || !y`, `!(x || y)` = `!x && !y` (the same operands are
+#        evaluated in the same order under short-circuiting), `!!x` = x, and `!(a < b)` = `a >= b` etc. on usize / isize / bool
+#        operands only (never on elements).
 # Not canonicalised on purpose (they remain noise, see the findings file): the ORDER of the loop-state tuple (declaration order:
 # exchanging two `let`s of loop-carried variables permutes it), statement order, boolean algebra (De Morgan), `while i != H`,
 # hoisting / inlining of fallible reads (they change the evaluation order of possible panics, which only a proof can discharge).
@@ -917,6 +920,18 @@ class Translator:
         if k == "un":
             op = e[1]
             if op in ("&", "&mut", "*"): return self.ex(e[2], env, B)
+            if op == "!":
+                # (C7) negation normal form: `!` is pushed through `&&` / `||` (De Morgan; the short-circuit evaluation of the operands
+                # is the same), through `!`, and through comparisons of usize / isize / bool operands (never of elements: NaN)
+                inner = unparen(e[2])
+                if inner[0] == "bin" and inner[1] in ("&&", "||"):
+                    return self.ex(("bin", "||" if inner[1] == "&&" else "&&", ("un", "!", inner[2]), ("un", "!", inner[3])), env, B)
+                if inner[0] == "un" and inner[1] == "!": return self.ex(inner[2], env, B)
+                dual = {"<": ">=", "<=": ">", ">": "<=", ">=": "<", "==": "!=", "!=": "=="}
+                if inner[0] == "bin" and inner[1] in dual:
+                    tys = {self.type_of(inner[2], env), self.type_of(inner[3], env)} - {"lit"}
+                    if len(tys) <= 1 and tys <= {"usize", "isize", "bool"} and (inner[1] in ("==", "!=") or "bool" not in tys):
+                        return self.ex(("bin", dual[inner[1]], inner[2], inner[3]), env, B)
             a, ta = self.ex(e[2], env, B)
             if op == "-":
                 if ta in SCALARS: return ("(neg %s)" % a, ta)
